@@ -93,3 +93,16 @@ prop("C16", "exploration", (400, 8000),
      text="Seeded exploration of proofs whose query sets repeat indices and share cosets (probes count how often), checking that compression is lossless, that the compressed "
           "form of an accepted proof is accepted, and that the two verification routes agree on faulted messages.",
      note="Faults on query-round data of the plain proof are not compressed-and-compared: compression legitimately drops redundant siblings, so the verdict may differ by design.")
+
+prop("C19", "exploration", (40, 600),
+     rule="one run = one program on a heterogeneous cluster: every node (process of a build variant: scalar / AVX2 [/ native AVX-512 / debug arithmetic], each with its own compile-time "
+          "hash-map seed) builds the circuit under 3 (quick) or 8 (thorough) fork-join schedules with 1-16 simulated workers, proves under each, and emits key bytes, digests of "
+          "deterministic intermediates (sigma polynomials, preprocessed polynomials and tree, subgroup, coset shifts, transforms/hashes/Merkle caps of seeded data, the sequential-schedule "
+          "proof bytes of unblinded circuits) and proofs; every other node must derive identical bytes/digests and accept every delivered proof. "
+          "A case = one comparison (keys under a schedule, pre-grinding transcript under a schedule, keys across two nodes, one delivered proof). "
+          "non-trivial = the two sides differ in schedule (>1 worker) or in build variant",
+     technique="deterministic simulation: heterogeneous cluster of build variants x hash seeds x seeded schedules; byte-identity of keys/intermediates and cross-acceptance of proofs",
+     text="Seeded exploration over schedules, compile-time hash seeds and SIMD builds: identical verifier/common data and deterministic intermediates across all of them, "
+          "identical pre-grinding transcripts across schedules, and full cross-acceptance of proofs between nodes (also for blinded circuits).",
+     note="Thread scheduling is simulated (linearised fork-join); hash seeds are fixed per variant by CONST_RANDOM_SEED (4 seeds, not all); programs avoid BaseSumGate<B!=2>, which the default gate serializer cannot encode.",
+     variants={"quick": ["v0", "v1"], "thorough": ["v0", "v1", "v2", "v3"]}, driver=True)
